@@ -25,6 +25,7 @@ func c10Extra(c *Ctx) {
 	ruleLoopAccum(c, "LOOP-ACCUM", c.P.ModulePkgs())
 	c10ForeignNotFound(c, pk)
 	c10BuilderRecords(c, pk)
+	ruleFilteredPreferred(c, "TARGETS-PREFERRED", pk, 1)
 	ruleDelegateErr(c, "DELEGATE-ERR", []*packages.Package{pk})
 	// (b) owner loop
 	if fr := p.Func("private/bufpkg/bufmodule", "moduleSet.getModuleForFilePathUncached"); fr != nil {
